@@ -162,7 +162,7 @@ Hypothesis Eps : ps s' = ps s.
 Hypothesis Egs : g_strong (gh s') = g_strong (gh s).
 Hypothesis Egf : g_feat_seen (gh s') = g_feat_seen (gh s).
 Hypothesis Hh : forall k, In k (hk s') -> In k (hk s) \/ (is_posth k = true /\ evP s).
-Hypothesis Hi : forall i, In i (ik s') -> In i (ik s) \/ evP s.
+Hypothesis Hi : forall i, In i (ik s') -> In i (ik s) \/ i = IKLegacy \/ evP s.
 Hypothesis Ht : hasTMF s' -> hasTMF s.
 Hypothesis Hs : sm_enabled s' = sm_enabled s \/ evP s.
 Hypothesis Hq : exists l, sendq s' = sendq s ++ l /\ Forall (fun x => benignE x \/ In (fst (fst x)) (sw s)) l.
@@ -185,7 +185,7 @@ Proof.
     - specialize (B _ K). discriminate. }
   repeat split.
   - intros k Hk. destruct (Hh k Hk) as [X|[_ X]]; [auto|tauto].
-  - intros i Hi0. destruct (Hi i Hi0) as [X|X]; [auto|tauto].
+  - intros i Hi0. destruct (Hi i Hi0) as [X|[X|X]]; [auto|exact X|tauto].
   - destruct Hs; tauto.
 Qed.
 
@@ -275,7 +275,7 @@ Proof.
 Qed.
 End Transfer.
 
-Definition cK : list fld := [Fsme; Fh; Fid; Ft; Fsq; Fsmq; Fcr; FhD; FidD].
+Definition cK : list fld := [Fsme; Fh; Fid; Ft; Fsq; Fsmq; Fcr; FhD; FidD; Fdisc].
 
 (* the generic preservation lemma: a function that only adds benign queue entries, removes handlers or
    timers, and adds post-authentication handlers only when the state is already past authentication *)
@@ -284,7 +284,7 @@ Lemma hinv_mono c p s s' :
   (forall x, pw p x -> benignE x) ->
   (forall k, pt p k -> k <> TMissingFeatures) ->
   (forall k, ph p k -> is_posth k = true /\ evP s) ->
-  (forall i, pid p i -> evP s) ->
+  (forall i, pid p i -> i = IKLegacy \/ evP s) ->
   (fmem Fsme c = true -> evP s) ->
   (hasTMF s' -> hasF s -> hasF s') ->
   HInv s'.
@@ -327,36 +327,77 @@ Proof.
   - right. right. exact (ef_ikeep _ _ _ _ E F2 _ A).
 Qed.
 
-(* handler-level judgement: the invariant plus the local context (evidence of the post-authentication
-   phase if ev; the parser is inside a stream if po; never Connecting while handlers run) *)
-Definition Ctx (ev po : bool) (t : state) : Prop :=
-  (ev = true -> evP t) /\ (po = true -> ps t = POpen) /\ st t <> Connecting.
-Definition JT (ev po : bool) (t : state) : Prop := HInv t /\ Ctx ev po t.
+(* handler-level judgement: the invariant plus the local context:
+   ev: evidence of the post-authentication phase; po: the parser is inside a stream; ld: the code does not
+   call conn_disconnect and LocD holds (needed while a chunk is processed); never Connecting while handlers run;
+   VD eo: what is known about a strong offer while HFeatures waits (eo = the element being dispatched) *)
+Definition strongE (eo : option elem) (t : state) : Prop :=
+  exists e, eo = Some e /\ is_feat e = true /\ existsb (is_strong (cert_set t)) (e_mechs e) = true.
+Definition VD (eo : option elem) (t : state) : Prop :=
+  live t -> hasF t ->
+  (forall e, eo = Some e -> is_feat e = true -> g_feat_seen (gh t) = true) /\
+  (crashed t = false -> g_strong (gh t) = true -> strong_in t \/ strongE eo t).
+Definition LocD (t : state) : Prop :=
+  st t = Disconnected ->
+  sm_enabled t = false /\ (forall k, In k (hk t) -> is_baseh k = true) /\ (forall i, In i (ik t) -> i = IKLegacy).
+Definition Ctx (ev po ld : bool) (eo : option elem) (t : state) : Prop :=
+  (ev = true -> evP t) /\ (po = true -> ps t = POpen) /\ st t <> Connecting /\ VD eo t /\ (ld = true -> LocD t).
+Definition JT (ev po ld : bool) (eo : option elem) (t : state) : Prop := HInv t /\ Ctx ev po ld eo t.
 
-Lemma ctx_step ev po c p t t' :
-  eff c p t t' -> subl c cK = true -> fmem FhD c = false -> fmem FidD c = false -> Ctx ev po t -> Ctx ev po t'.
+Lemma base_not_evP t : (forall k, In k (hk t) -> is_baseh k = true) -> (forall i, In i (ik t) -> i = IKLegacy) -> ~ evP t.
 Proof.
-  intros E Sub F1 F2 [A [B C]]. pose proof (subl_ok _ _ Sub) as W. repeat split.
+  intros A B [[k [K1 K2]]|[K|K]].
+  - specialize (A k K1). destruct k; discriminate.
+  - specialize (B _ K). discriminate.
+  - specialize (B _ K). discriminate.
+Qed.
+
+Lemma ctx_step ev po ld eo c p t t' :
+  eff c p t t' -> subl c cK = true -> fmem FhD c = false -> fmem FidD c = false ->
+  (forall k, ph p k -> is_posth k = true /\ ev = true) -> (forall i, pid p i -> i = IKLegacy \/ ev = true) ->
+  (fmem Fsme c = true -> ev = true) -> (ld = true -> fmem Fdisc c = false) ->
+  Ctx ev po ld eo t -> Ctx ev po ld eo t'.
+Proof.
+  intros E Sub F1 F2 Ph Pi Ps Pl [A [B [C [D LD]]]]. pose proof (subl_ok _ _ Sub) as W.
+  split; [|split; [|split; [|split]]].
   - intro X. eapply keep_evP; eauto.
   - intro X. assert (Y : fmem Fps (c ++ DISC) = false) by (rewrite fmem_app, (W Fps eq_refl); reflexivity).
     pose proof (ef_U _ _ _ _ E Fps Y) as Z. cbn in Z. rewrite Z. auto.
   - destruct (ef_st _ _ _ _ E) as [X|X]; rewrite X; [exact C|discriminate].
+  - intros L' F'. destruct (live_back _ _ (ef_st _ _ _ _ E) L') as [L0 _].
+    assert (F0 : hasF t).
+    { destruct (ef_h _ _ _ _ E _ F') as [X|X]; [exact X|]. destruct (Ph _ X) as [Y _]. discriminate. }
+    destruct (D L0 F0) as [D1 D2]. pose proof (ef_L _ _ _ _ E L') as Fr.
+    pose proof (Fr Fgf (W Fgf eq_refl)) as Egf. pose proof (Fr Fgs (W Fgs eq_refl)) as Egs.
+    pose proof (Fr Fsasl (W Fsasl eq_refl)) as Esasl. pose proof (Fr Fcert (W Fcert eq_refl)) as Ecert. cbn in *.
+    split.
+    + intros e X Y. rewrite Egf. eauto.
+    + intros X Y. rewrite Egs in Y.
+      assert (Z : crashed t = false) by (destruct (crashed t) eqn:Q; [rewrite (ef_cr _ _ _ _ E Q) in X; discriminate|reflexivity]).
+      unfold strong_in, strongE. rewrite Esasl, Ecert. exact (D2 Z Y).
+  - intros X S'. specialize (Pl X). pose proof (ef_nd _ _ _ _ E Pl) as Est. rewrite Est in S'.
+    destruct (LD X S') as [L1 [L2 L3]]. pose proof (base_not_evP t L2 L3) as NE.
+    assert (NEv : ev = true -> False) by (intro Y; apply NE; auto).
+    split; [|split].
+    + destruct (fmem Fsme c) eqn:Q; [exfalso; auto|]. destruct (ef_sme _ _ _ _ E Q) as [Y|Y]; congruence.
+    + intros k K. destruct (ef_h _ _ _ _ E _ K) as [Y|Y]; [auto|]. destruct (Ph _ Y) as [_ Z]. exfalso; auto.
+    + intros i K. destruct (ef_i _ _ _ _ E _ K) as [Y|Y]; [auto|]. destruct (Pi _ Y) as [Z|Z]; [exact Z|exfalso; auto].
 Qed.
 
-Lemma jt_step ev po c p t t' :
-  JT ev po t -> eff c p t t' -> subl c cK = true -> fmem FhD c = false -> fmem FidD c = false ->
+Lemma jt_step ev po ld eo c p t t' :
+  JT ev po ld eo t -> eff c p t t' -> subl c cK = true -> fmem FhD c = false -> fmem FidD c = false ->
   (forall x, pw p x -> benignE x) -> (forall k, pt p k -> k <> TMissingFeatures) ->
-  (forall k, ph p k -> is_posth k = true /\ ev = true) -> (forall i, pid p i -> ev = true) ->
-  (fmem Fsme c = true -> ev = true) ->
-  JT ev po t'.
+  (forall k, ph p k -> is_posth k = true /\ ev = true) -> (forall i, pid p i -> i = IKLegacy \/ ev = true) ->
+  (fmem Fsme c = true -> ev = true) -> (ld = true -> fmem Fdisc c = false) ->
+  JT ev po ld eo t'.
 Proof.
-  intros [H C] E Sub F1 F2 Pw Pt Ph Pi Ps. split; [|eapply ctx_step; eassumption].
-  destruct C as [C1 _].
-  eapply hinv_mono; try eassumption.
-  - intros k X. destruct (Ph k X). auto.
-  - intros i X. eauto.
-  - intro X. auto.
-  - intros _ X. eapply keep_hk; eassumption.
+  intros [H C] E Sub F1 F2 Pw Pt Ph Pi Ps Pl. split.
+  - destruct C as [C1 _]. eapply hinv_mono; try eassumption.
+    + intros k X. destruct (Ph k X). auto.
+    + intros i X. destruct (Pi i X); auto.
+    + intro X. auto.
+    + intros _ X. eapply keep_hk; eassumption.
+  - eapply ctx_step; eassumption.
 Qed.
 
 (* removing a handler / id handler / timer at the end of a visit *)
@@ -373,6 +414,49 @@ Proof.
   - intro X. rewrite Fs in X. discriminate.
 Qed.
 
+(* conn_prepare_reset: only oh and reset_parser change; the clauses that read them are obligations *)
+Lemma linv_set_oh h b t :
+  LInv t ->
+  (st t = Connecting -> h <> OpenTls /\ h <> OpenSasl /\ h <> OpenCompress) ->
+  (hasF t -> (h = OpenAuth \/ h = OpenTls) /\ (hasTMF t -> h = OpenAuth) /\ (h = OpenAuth -> sasl t = [])) ->
+  (hasT t -> h = OpenAuth) ->
+  (hasS t -> h = OpenAuth \/ h = OpenTls) ->
+  (st t = Connected -> h = OpenAuth -> ps t = PDepth0 -> fresh t) ->
+  (h = OpenTls -> (b = true \/ ps t = PDepth0) ->
+     quietS t /\ (g_strong (gh t) = true -> strong_in t) /\ (ps t <> PDepth0 -> g_feat_seen (gh t) = true)) ->
+  (h = OpenSasl \/ h = OpenCompress -> noauth t) ->
+  (h = OpenTls -> secured t = true /\ st t = Connected) ->
+  (st t = Connected -> h = OpenAuth -> b = false) ->
+  (st t = Connected -> is_raw t = false -> b = true -> ps t <> PDepth0) ->
+  (is_raw t = true -> h = OpenStub \/ h = OpenRaw) ->
+  (h = OpenStub \/ h = OpenRaw -> is_raw t = true) ->
+  (h = OpenComponent -> (forall k, In k (hk t) -> is_baseh k = true) /\ (forall i, In i (ik t) -> i = IKLegacy) /\ ~ hasTMF t) ->
+  LInv (set_oh h (set_reset_parser b t)).
+Proof.
+  intros L OC OXF OXT OXS OPOA OPOT OPOP OO OR ORP ORAW OSTUB OCOMP. constructor.
+  - intro A. destruct (li_C t L A) as [F [X [Y _]]]. split; [exact F|split; [exact X|split; [exact Y|exact (OC A)]]].
+  - intro A. destruct (li_XF t L A) as [X [Y _]]. split; [exact X|split; [exact Y|exact (OXF A)]].
+  - intro A. destruct (li_XT t L A) as [X [Y [Z [V [_ W]]]]]. split; [exact X|split; [exact Y|split; [exact Z|split; [exact V|split; [exact (OXT A)|exact W]]]]].
+  - intros k A B. destruct (li_XS t L k A B) as [X [Y [Z [_ W]]]].
+    split; [exact X|split; [exact Y|split; [exact Z|split; [|exact W]]]]. apply OXS. exists k. auto.
+  - exact (li_XP t L).
+  - exact (li_TMF t L).
+  - exact OPOA.
+  - exact OPOT.
+  - exact OPOP.
+  - exact OO.
+  - exact OR.
+  - exact ORP.
+  - intro A. destruct (li_RAW t L A) as [_ X]. split; [exact (ORAW A)|exact X].
+  - exact OSTUB.
+  - exact OCOMP.
+  - exact (li_Q t L).
+  - exact (li_M t L).
+  - exact (li_D t L).
+  - exact (li_L t L).
+  - exact (li_PL t L).
+Qed.
+
 (* ------------------------------------------------------------------ symbolic execution for JT *)
 Ltac destr_hyps :=
   repeat match goal with
@@ -387,84 +471,378 @@ Ltac pw_tac :=
           first [reflexivity | match goal with H' : fst (fst _) = _ |- _ => rewrite H' end; reflexivity] ].
 Ltac pt_tac := cbn; let k := fresh "k" in let H := fresh "H" in intros k H; try contradiction; destr_hyps; subst; discriminate.
 Ltac ph_tac := cbn; let k := fresh "k" in let H := fresh "H" in intros k H; try contradiction; destr_hyps; subst; split; reflexivity.
-Ltac pi_tac := cbn; let k := fresh "k" in let H := fresh "H" in intros k H; try contradiction; reflexivity.
+Ltac pi_tac := cbn; let k := fresh "k" in let H := fresh "H" in intros k H; try contradiction; first [right; reflexivity | left; destr_hyps; subst; reflexivity].
 Ltac ps_tac := let X := fresh "X" in intro X; first [discriminate X | reflexivity].
+Ltac ld_tac := let X := fresh "X" in intro X; first [discriminate X | reflexivity].
 Ltac jstep L :=
-  eapply jt_step; [ | apply L | vm_compute; reflexivity | reflexivity | reflexivity | pw_tac | pt_tac | ph_tac | pi_tac | ps_tac ].
+  eapply jt_step; [ | apply L | vm_compute; reflexivity | reflexivity | reflexivity | pw_tac | pt_tac | ph_tac | pi_tac | ps_tac | ld_tac ].
 Ltac jsetter t :=
-  first [ eapply (jt_step _ _ [] pnone t); [ | eff_frame | vm_compute; reflexivity | reflexivity | reflexivity | pw_tac | pt_tac | ph_tac | pi_tac | ps_tac ]
-        | eapply (jt_step _ _ [Fsme] pnone t); [ | eff_frame | vm_compute; reflexivity | reflexivity | reflexivity | pw_tac | pt_tac | ph_tac | pi_tac | ps_tac ] ].
+  first [ eapply (jt_step _ _ _ _ [] pnone t); [ | (let tt := fresh "tt" in set (tt := t); clearbody tt; eff_frame) | vm_compute; reflexivity | reflexivity | reflexivity | pw_tac | pt_tac | ph_tac | pi_tac | ps_tac | ld_tac ]
+        | eapply (jt_step _ _ _ _ [Fsme] pnone t); [ | (let tt := fresh "tt" in set (tt := t); clearbody tt; eff_frame) | vm_compute; reflexivity | reflexivity | reflexivity | pw_tac | pt_tac | ph_tac | pi_tac | ps_tac | ld_tac ] ].
 
+Ltac peel_extra := fail.
 Ltac peelJ :=
   match goal with
-  | H : JT ?a ?b ?t |- JT ?a ?b ?t => exact H
-  | |- JT _ _ (if _ then _ else _) => break_if
-  | |- JT _ _ (match _ with _ => _ end) => break_match
-  | |- JT _ _ (send_gated _ _ _ _) => jstep send_gated_eff
-  | |- JT _ _ (send_raw_m _ _ _ _) => jstep send_raw_m_eff
-  | |- JT _ _ (xmpp_disconnect _ _) => jstep xmpp_disconnect_eff
-  | |- JT _ _ (conn_open_stream _) => jstep conn_open_stream_eff
-  | |- JT _ _ (timed_add _ _ _) => jstep timed_add_eff
-  | |- JT _ _ (timed_reset_all _ _) => jstep (timed_reset_all_eff pnone)
-  | |- JT _ _ (timed_set_stamp _ _ _) => jstep (timed_set_stamp_eff pnone)
-  | |- JT _ _ (h_add _ _) => jstep h_add_eff
-  | |- JT _ _ (id_add _ _) => jstep id_add_eff
-  | |- JT _ _ (sm_queue_resend _) => jstep sm_queue_resend_eff
-  | |- JT _ _ (sm_queue_cleanup _ _) => jstep (sm_queue_cleanup_eff pnone)
-  | |- JT _ _ (sm_enable _) => jstep sm_enable_eff
-  | |- JT _ _ (session_start _ _) => jstep session_start_eff
-  | |- JT _ _ (upg _ _) => unfold upg
-  | |- JT _ _ (fst (conn_disconnect _)) => jstep (conn_disconnect_eff pnone)
-  | |- JT _ _ (fst (stream_negotiation_success _)) => jstep (stream_negotiation_success_eff pnone)
-  | |- JT _ _ (fst (do_bind _ _ _)) => jstep do_bind_eff
-  | |- JT _ _ (?f ?v ?t) => jsetter t
+  | H : JT ?a ?b ?c ?d ?t |- JT ?a ?b ?c ?d ?t => exact H
+  | |- JT _ _ _ _ (if _ then _ else _) => break_if
+  | |- JT _ _ _ _ (match _ with _ => _ end) => break_match
+  | |- JT _ _ _ _ (send_gated _ _ _ _) => jstep send_gated_eff
+  | |- JT _ _ _ _ (send_raw_m _ _ _ _) => jstep send_raw_m_eff
+  | |- JT _ _ _ _ (xmpp_disconnect _ _) => jstep xmpp_disconnect_eff
+  | |- JT _ _ _ _ (conn_open_stream _) => jstep conn_open_stream_eff
+  | |- JT _ _ _ _ (timed_add _ _ _) => jstep timed_add_eff
+  | |- JT _ _ _ _ (timed_del _ _) => jstep (timed_del_eff pnone)
+  | |- JT _ _ _ _ (timed_reset_all _ _) => jstep (timed_reset_all_eff pnone)
+  | |- JT _ _ _ _ (timed_set_stamp _ _ _) => jstep (timed_set_stamp_eff pnone)
+  | |- JT _ _ _ _ (h_add _ _) => jstep h_add_eff
+  | |- JT _ _ _ _ (id_add _ _) => jstep id_add_eff
+  | |- JT _ _ _ _ (sm_queue_resend _) => jstep sm_queue_resend_eff
+  | |- JT _ _ _ _ (sm_queue_cleanup _ _) => jstep (sm_queue_cleanup_eff pnone)
+  | |- JT _ _ _ _ (sm_enable _) => jstep sm_enable_eff
+  | |- JT _ _ _ _ (session_start _ _) => jstep session_start_eff
+  | |- JT _ _ _ _ (upg _ _) => unfold upg
+  | |- JT _ _ _ _ (prepare_reset _ _) => peel_extra
+  | |- JT _ _ _ _ (fst (conn_disconnect _)) => jstep (conn_disconnect_eff pnone)
+  | |- JT _ _ _ _ (fst (stream_negotiation_success _)) => jstep (stream_negotiation_success_eff pnone)
+  | |- JT _ _ _ _ (fst (do_bind _ _ _)) => jstep do_bind_eff
+  | |- JT _ _ _ _ (?f ?v ?t) => jsetter t
   end.
 
 (* results *)
-Definition JR (ev po : bool) (r : R) : Prop := JT ev po (fst r).
-Definition J3 (ev po : bool) (r : state * emit * bool) : Prop := JT ev po (fst (fst r)).
-Lemma J3_let_st ev po v (B : state -> state * emit * bool) :
-  JT ev po v -> (forall x, JT ev po x -> J3 ev po (B x)) -> J3 ev po (let x := v in B x).
+Definition JR (ev po ld : bool) (eo : option elem) (r : R) : Prop := JT ev po ld eo (fst r).
+Definition J3 (ev po ld : bool) (eo : option elem) (r : state * emit * bool) : Prop := JT ev po ld eo (fst (fst r)).
+Lemma J3_let_st ev po ld eo v (B : state -> state * emit * bool) :
+  JT ev po ld eo v -> (forall x, JT ev po ld eo x -> J3 ev po ld eo (B x)) -> J3 ev po ld eo (let x := v in B x).
 Proof. intros A F. apply F. exact A. Qed.
-Lemma JR_let_st ev po v (B : state -> R) :
-  JT ev po v -> (forall x, JT ev po x -> JR ev po (B x)) -> JR ev po (let x := v in B x).
+Lemma JR_let_st ev po ld eo v (B : state -> R) :
+  JT ev po ld eo v -> (forall x, JT ev po ld eo x -> JR ev po ld eo (B x)) -> JR ev po ld eo (let x := v in B x).
 Proof. intros A F. apply F. exact A. Qed.
-Lemma J3_bind ev po (r : R) (B : state -> emit -> state * emit * bool) :
-  JR ev po r -> (forall x o, JT ev po x -> J3 ev po (B x o)) -> J3 ev po (let '(x, o) := r in B x o).
+Lemma J3_bind ev po ld eo (r : R) (B : state -> emit -> state * emit * bool) :
+  JR ev po ld eo r -> (forall x o, JT ev po ld eo x -> J3 ev po ld eo (B x o)) -> J3 ev po ld eo (let '(x, o) := r in B x o).
 Proof. destruct r as [x o]. intros A F. apply F. exact A. Qed.
-Lemma JR_bind ev po (r : R) (B : state -> emit -> R) :
-  JR ev po r -> (forall x o, JT ev po x -> JR ev po (B x o)) -> JR ev po (let '(x, o) := r in B x o).
+Lemma JR_bind ev po ld eo (r : R) (B : state -> emit -> R) :
+  JR ev po ld eo r -> (forall x o, JT ev po ld eo x -> JR ev po ld eo (B x o)) -> JR ev po ld eo (let '(x, o) := r in B x o).
 Proof. destruct r as [x o]. intros A F. apply F. exact A. Qed.
 
 Ltac symJR :=
   lazymatch goal with
-  | |- JR ?a ?b (let x := ?v in @?B x) =>
+  | |- JR ?a ?b ?c ?d (let x := ?v in @?B x) =>
       let ty := type of v in
       lazymatch ty with
-      | state => apply (JR_let_st a b v B); [repeat peelJ|intros ? ?; cbv beta]
-      | _ => change (JR a b (B v)); cbv beta
+      | state => apply (JR_let_st a b c d v B); [repeat peelJ|intros ? ?; cbv beta]
+      | _ => change (JR a b c d (B v)); cbv beta
       end
-  | |- JR _ _ (ret _) => unfold JR, ret; cbn [fst]; repeat peelJ
-  | |- JR _ _ (if ?c then _ else _) => destruct c eqn:?
-  | |- JR ?a ?b (let '(x, o) := ?r in @?B x o) => apply (JR_bind a b r B); [|intros ? ? ?]
-  | |- JR _ _ (match ?x with _ => _ end) => destruct x eqn:?
-  | |- JR _ _ (_, _) => unfold JR; cbn [fst]; repeat peelJ
-  | |- JR _ _ _ => unfold JR; repeat peelJ
+  | |- JR _ _ _ _ (ret _) => unfold JR, ret; cbn [fst]; repeat peelJ
+  | |- JR _ _ _ _ (if ?c then _ else _) => destruct c eqn:?
+  | |- JR ?a ?b ?c ?d (let '(x, o) := ?r in @?B x o) => apply (JR_bind a b c d r B); [|intros ? ? ?]
+  | |- JR _ _ _ _ (match ?x with _ => _ end) => destruct x eqn:?
+  | |- JR _ _ _ _ (_, _) => unfold JR; cbn [fst]; repeat peelJ
+  | |- JR _ _ _ _ _ => unfold JR; repeat peelJ
   end.
 Ltac symJ3 :=
   lazymatch goal with
-  | |- J3 ?a ?b (let x := ?v in @?B x) =>
+  | |- J3 ?a ?b ?c ?d (let x := ?v in @?B x) =>
       let ty := type of v in
       lazymatch ty with
-      | state => apply (J3_let_st a b v B); [repeat peelJ|intros ? ?; cbv beta]
-      | _ => change (J3 a b (B v)); cbv beta
+      | state => apply (J3_let_st a b c d v B); [repeat peelJ|intros ? ?; cbv beta]
+      | _ => change (J3 a b c d (B v)); cbv beta
       end
-  | |- J3 _ _ (if ?c then _ else _) => destruct c eqn:?
-  | |- J3 ?a ?b (let '(x, o) := ?r in @?B x o) => apply (J3_bind a b r B); [repeat symJR|intros ? ? ?]
-  | |- J3 _ _ (match ?x with _ => _ end) => destruct x eqn:?
-  | |- J3 _ _ (_, _, _) => unfold J3; cbn [fst]; repeat peelJ
+  | |- J3 _ _ _ _ (if ?c then _ else _) => destruct c eqn:?
+  | |- J3 ?a ?b ?c ?d (let '(x, o) := ?r in @?B x o) => apply (J3_bind a b c d r B); [repeat symJR|intros ? ? ?]
+  | |- J3 _ _ _ _ (match ?x with _ => _ end) => destruct x eqn:?
+  | |- J3 _ _ _ _ (_, _, _) => unfold J3; cbn [fst]; repeat peelJ
   end.
 
-(* the stream-management handler: everything it does is harmless once HSm is registered *)
-Lemma call_HSm_J now e s : JT true true s -> J3 true true (call_handler HSm now e s).
-Proof. intro H. cbv beta iota delta [call_handler]. repeat symJ3. Qed.
+Lemma jt_prepare_post ld eo h t :
+  h = OpenSasl \/ h = OpenCompress -> JT true true ld eo t -> JT true true ld eo (prepare_reset h t).
+Proof.
+  intros Hh [[G Lv] C]. split; [|exact C]. split; [destruct G as [G1 G2]; constructor; [exact G1|exact G2]|]. intro L'. specialize (Lv L').
+  destruct C as [Ev [Po [Nc _]]]. specialize (Ev eq_refl). specialize (Po eq_refl).
+  pose proof (evP_noauth t Lv Ev) as [N1 [N2 [N3 N4]]].
+  assert (NR : is_raw t = false).
+  { destruct (is_raw t) eqn:R; [|reflexivity]. destruct (li_RAW t Lv R) as [_ [A [B _]]].
+    exfalso. apply (base_not_evP t); auto. intros k K. rewrite (A k K). reflexivity. }
+  unfold prepare_reset. destruct Hh; subst h.
+  all: apply linv_set_oh; [exact Lv|..].
+  all: try (intro X; contradiction).
+  all: try tauto.
+  all: try (intros _ X; discriminate X).
+  all: try (intro X; discriminate X).
+  all: try (intros _; repeat split; assumption).
+  all: try (intros _ _ _; rewrite Po; discriminate).
+  all: try (intro X; rewrite NR in X; discriminate X).
+  all: intros [X|X]; discriminate X.
+Qed.
+
+Ltac peel_extra ::=
+  match goal with
+  | |- JT true true _ _ (prepare_reset OpenSasl _) => apply jt_prepare_post; [left; reflexivity|]
+  | |- JT true true _ _ (prepare_reset OpenCompress _) => apply jt_prepare_post; [right; reflexivity|]
+  end.
+
+(* the handlers of the post-authentication phase (evidence: the handler itself is registered), the base handlers
+   and the id handlers: everything they do is covered by the generic step lemma *)
+Lemma call_post_J k now e eo s : is_posth k = true -> JT true true true eo s -> J3 true true true eo (call_handler k now e s).
+Proof.
+  intros K H. destruct k; try discriminate K; cbv beta iota delta [call_handler features_sasl]; repeat symJ3.
+Qed.
+
+Lemma call_base_J k now e eo s : is_baseh k = true -> JT false true true eo s -> J3 false true true eo (call_handler k now e s).
+Proof.
+  intros K H. destruct k; try discriminate K; cbv beta iota delta [call_handler]; repeat symJ3.
+Qed.
+Lemma call_id_J k now e eo s :
+  JT (match k with IKLegacy => false | _ => true end) true true eo s ->
+  JR (match k with IKLegacy => false | _ => true end) true true eo (call_id_handler k now e s).
+Proof. intros H. destruct k; cbv beta iota delta [call_id_handler]; repeat symJR. Qed.
+Lemma sm_handle_J e ev eo s : JT ev true true eo s -> JT ev true true eo (sm_handle e s).
+Proof. intro H. unfold sm_handle. repeat peelJ. Qed.
+Lemma call_timed_J k now s : k <> TMissingFeatures -> JT false false false None s -> J3 false false false None (call_timed k now s).
+Proof.
+  intros K H. destruct k; try congruence; cbv beta iota delta [call_timed]; repeat symJ3.
+Qed.
+
+(* ------------------------------------------------------------------ moves inside the authentication phase *)
+Definition is_authh (k : hkind) : Prop := k = HFeatures \/ k = HProceedTls \/ is_saslh k = true.
+Lemma authh_not_base k : is_authh k -> is_baseh k = false /\ is_posth k = false /\ k <> HUser.
+Proof. intros [A|[A|A]]; subst; try (repeat split; (reflexivity || discriminate)). destruct k; try discriminate; repeat split; (reflexivity || discriminate). Qed.
+
+Section Transfer2.
+Variables s s' : state.
+Variable k0 : hkind.
+Hypothesis K0 : In k0 (hk s).
+Hypothesis K0a : is_authh k0.
+Hypothesis L : LInv s.
+Hypothesis Eraw : is_raw s' = is_raw s.
+Hypothesis Est : st s' = st s.
+Hypothesis Erp : reset_parser s' = reset_parser s.
+Hypothesis Eoh : oh s' = oh s.
+Hypothesis Eps : ps s' = ps s.
+Hypothesis Hhk : forall k, In k (hk s') -> is_baseh k = true \/ is_authh k.
+Hypothesis Hpp : prepost s'.
+Hypothesis Htm : ~ hasTMF s'.
+Hypothesis OXF : hasF s' ->
+  (forall k, In k (hk s') -> is_baseh k = true \/ k = HFeatures) /\ prepost s' /\
+  (oh s' = OpenAuth \/ oh s' = OpenTls) /\ (hasTMF s' -> oh s' = OpenAuth) /\ (oh s' = OpenAuth -> sasl s' = []).
+Hypothesis OXT : hasT s' ->
+  (forall k, In k (hk s') -> is_baseh k = true \/ k = HProceedTls) /\ prepost s' /\ ~ hasTMF s' /\
+  secured s' = false /\ oh s' = OpenAuth /\ g_feat_seen (gh s') = true /\
+  (g_strong (gh s') = true -> strong_in s' /\ mem_mech MPlain (sasl s') = false).
+Hypothesis OXS : forall k, In k (hk s') -> is_saslh k = true ->
+  (forall k', In k' (hk s') -> is_baseh k' = true \/ k' = k) /\ prepost s' /\ ~ hasTMF s' /\
+  (oh s' = OpenAuth \/ oh s' = OpenTls) /\ g_feat_seen (gh s') = true /\
+  (g_strong (gh s') = true -> mem_mech MPlain (sasl s') = false).
+Hypothesis OQ : forall x, In x (sendq s') -> snd x = false -> is_neg (fst (fst x)) = false.
+Hypothesis OM : f_tls_mandatory s' = true ->
+  (hasS s' \/ exists x, In x (sendq s') /\ is_cred (fst (fst x)) = true) -> is_secured s' = true.
+Hypothesis OD : f_tls_disabled s' = true -> forall x, In x (sendq s') -> fst (fst x) <> WStartTls.
+Hypothesis OL : forall x, In x (sendq s') -> fst (fst x) = WLegacy -> f_legacy_auth s' = true /\ typ s' = TClient.
+Hypothesis OPL : forall x, In x (sendq s') -> fst (fst x) = WAuth MPlain ->
+  g_strong (gh s') = false /\ g_feat_seen (gh s') = true /\ ps s' <> PDepth0.
+Hypothesis OO : oh s' = OpenTls -> secured s' = true.
+
+Let NB := authh_not_base k0 K0a.
+
+Lemma t2_not_onlyuser : ~ (forall k, In k (hk s) -> k = HUser).
+Proof. intro A. destruct NB as [_ [_ X]]. apply X. auto. Qed.
+Lemma t2_not_base : ~ (forall k, In k (hk s) -> is_baseh k = true).
+Proof. intro A. destruct NB as [X _]. rewrite (A k0 K0) in X. discriminate. Qed.
+Lemma t2_not_noauth : ~ noauth s.
+Proof.
+  intros [A [B [C D]]]. destruct K0a as [X|[X|X]]; subst; [apply A|apply B|apply C; exists k0]; auto.
+Qed.
+
+Lemma linv_transfer2 : LInv s'.
+Proof.
+  constructor.
+  - intro A. rewrite Est in A. destruct (li_C s L A) as [[_ [_ [X _]]] _]. destruct (t2_not_onlyuser X).
+  - exact OXF.
+  - exact OXT.
+  - exact OXS.
+  - intros k A B. destruct (Hhk k A) as [X|X]; [destruct k; discriminate|].
+    destruct (authh_not_base k X) as [_ [Y _]]. congruence.
+  - intro A. tauto.
+  - intros A B C. rewrite Est in A. rewrite Eoh in B. rewrite Eps in C.
+    destruct (li_POA s L A B C) as [_ [_ [X _]]]. destruct (t2_not_onlyuser X).
+  - intros A B. rewrite Eoh in A. rewrite Erp, Eps in B. destruct (li_POT s L A B) as [[X _] _]. destruct (t2_not_base X).
+  - intro A. rewrite Eoh in A. destruct (t2_not_noauth (li_POP s L A)).
+  - intro A. split; [exact (OO A)|]. rewrite Eoh in A. rewrite Est. apply (li_O s L A).
+  - intros A B. rewrite Est in A. rewrite Eoh in B. rewrite Erp. apply (li_R s L A B).
+  - intros A B C. rewrite Est in A. rewrite Eraw in B. rewrite Erp in C. rewrite Eps. apply (li_RP s L A B C).
+  - intro A. rewrite Eraw in A. destruct (li_RAW s L A) as [_ [X _]]. destruct (t2_not_onlyuser X).
+  - intro A. rewrite Eoh in A. rewrite Eraw. apply (li_STUB s L A).
+  - intro A. rewrite Eoh in A. destruct (li_COMP s L A) as [X _]. destruct (t2_not_base X).
+  - exact OQ.
+  - exact OM.
+  - exact OD.
+  - exact OL.
+  - exact OPL.
+Qed.
+End Transfer2.
+
+(* ------------------------------------------------------------------ mechanism lists *)
+Lemma mem_mech_In m l : mem_mech m l = true <-> In m l.
+Proof.
+  unfold mem_mech. rewrite existsb_exists. split.
+  - intros [x [A B]]. apply mech_eqb_eq in B. subst. exact A.
+  - intro A. exists m. split; [exact A|apply mech_eqb_refl].
+Qed.
+Lemma In_del_mech a m l : In a (del_mech m l) <-> In a l /\ a <> m.
+Proof.
+  unfold del_mech. rewrite filter_In. split; intros [A B]; split; try exact A.
+  - intro E. subst. rewrite mech_eqb_refl in B. discriminate.
+  - destruct (mech_eqb m a) eqn:E; [|reflexivity]. apply mech_eqb_eq in E. congruence.
+Qed.
+Lemma mem_del_false a m l : mem_mech a l = false -> mem_mech a (del_mech m l) = false.
+Proof.
+  intro H. destruct (mem_mech a (del_mech m l)) eqn:E; [|reflexivity].
+  apply mem_mech_In in E. apply In_del_mech in E as [E _]. apply mem_mech_In in E. congruence.
+Qed.
+Lemma In_add_mech a m l : In a (add_mech m l) <-> In a l \/ (a = m).
+Proof.
+  unfold add_mech. destruct (mem_mech m l) eqn:E.
+  - split; [auto|]. intros [A|A]; [exact A|]. subst. apply mem_mech_In. exact E.
+  - rewrite in_app_iff. simpl. intuition.
+Qed.
+Lemma In_fold_add a offered : forall l, In a (fold_left (fun l m => add_mech m l) offered l) <-> In a l \/ In a offered.
+Proof.
+  induction offered as [|m r IH]; intro l; simpl; [tauto|]. rewrite IH, In_add_mech. intuition.
+Qed.
+Lemma existsb_In {A} (P : A -> bool) l : existsb P l = true <-> exists x, In x l /\ P x = true.
+Proof. apply existsb_exists. Qed.
+
+(* what _handle_features makes of the mechanism list *)
+Definition sasl_after (cert : bool) (offered0 : list mech) (l : list mech) : list mech :=
+  let offered := filter (fun m => match m with MExternal => cert | _ => true end) offered0 in
+  let l2 := fold_left (fun l m => add_mech m l) offered l in
+  if existsb (fun m => negb (is_plain_or_anon m)) l2 then del_mech MPlain l2 else l2.
+Lemma sasl_after_strong cert offered0 l :
+  (existsb (fun m => negb (is_plain_or_anon m)) l = true \/ existsb (is_strong cert) offered0 = true) ->
+  existsb (fun m => negb (is_plain_or_anon m)) (sasl_after cert offered0 l) = true /\
+  mem_mech MPlain (sasl_after cert offered0 l) = false.
+Proof.
+  intro H. unfold sasl_after. cbv zeta.
+  set (offered := filter _ offered0). set (l2 := fold_left _ offered l).
+  assert (S2 : existsb (fun m => negb (is_plain_or_anon m)) l2 = true).
+  { apply existsb_In. destruct H as [H|H]; apply existsb_In in H as [x [A B]].
+    - exists x. split; [|exact B]. apply In_fold_add. left. exact A.
+    - exists x. split.
+      + apply In_fold_add. right. unfold offered. apply filter_In. split; [exact A|].
+        destruct x; try reflexivity. exact B.
+      + destruct x; try reflexivity; discriminate B. }
+  rewrite S2. split.
+  - apply existsb_In. apply existsb_In in S2 as [x [A B]]. exists x. split; [|exact B].
+    apply In_del_mech. split; [exact A|]. intro E. subst. discriminate B.
+  - destruct (mem_mech MPlain (del_mech MPlain l2)) eqn:E; [|reflexivity].
+    apply mem_mech_In, In_del_mech in E. destruct E as [_ E]. congruence.
+Qed.
+Lemma sasl_after_nil cert : sasl_after cert [] [] = [].
+Proof. reflexivity. Qed.
+
+(* ------------------------------------------------------------------ _auth called from a handler of the authentication phase *)
+Record APre (k : hkind) (s : state) : Prop := mkAPre {
+  ap_in : In k (hk s);
+  ap_k : k = HFeatures \/ is_saslh k = true;
+  ap_hk : forall k', In k' (hk s) -> is_baseh k' = true \/ k' = k;
+  ap_pp : prepost s;
+  ap_tm : ~ hasTMF s;
+  ap_oh : oh s = OpenAuth \/ oh s = OpenTls;
+  ap_gf : g_feat_seen (gh s) = true;
+  ap_pl : g_strong (gh s) = true -> mem_mech MPlain (sasl s) = false;
+  ap_ps : ps s = POpen;
+  ap_st : st s <> Connecting
+}.
+Lemma apre_authh k s : APre k s -> is_authh k.
+Proof. intros A. destruct (ap_k k s A) as [X|X]; [left; exact X|right; right; exact X]. Qed.
+
+(* what the visit leaves behind: the invariant, and the local context for the rest of the dispatch *)
+Definition VPost (eo : option elem) (t : state) : Prop := HInv t /\ Ctx false true true eo t.
+
+Lemma In_app_sendq s t l x : sendq t = sendq s ++ l -> In x (sendq t) -> In x (sendq s) \/ In x l.
+Proof. intros E H. rewrite E in H. apply in_app_iff in H. exact H. Qed.
+
+Lemma is_secured_frame s t : secured t = secured s -> tls_failed t = tls_failed s -> tls_present t = tls_present s ->
+  is_secured t = is_secured s.
+Proof. unfold is_secured. intros -> -> ->. reflexivity. Qed.
+
+Lemma visit_mech eo k s m kh s' :
+  GInv s -> live s -> LInv s -> APre k s ->
+  f_tls_mandatory s && negb (is_secured s) = false -> mem_mech m (sasl s) = true -> is_saslh kh = true ->
+  (let s1 := set_sasl (del_mech m (sasl s)) (send_gated (WAuth m) false false (h_add kh s)) in
+   s' = s1 \/ exists n, s' = set_scram_serial n s1) ->
+  VPost eo (h_del k s').
+Proof.
+  intros G Lv L A Em Hm Kh Hs'. cbv zeta in Hs'.
+  set (s1 := set_sasl (del_mech m (sasl s)) (send_gated (WAuth m) false false (h_add kh s))) in *.
+  pose proof (mech_step_eff m kh s Kh) as E1. fold s1 in E1.
+  assert (Esasl1 : sasl s1 = del_mech m (sasl s)) by reflexivity.
+  assert (E2 : eff [Fsasl; Fsq; Fh] (mkP (fun x => x = (WAuth m, false, negb (sm_enabled s)) \/ x = (WReq, false, true))
+                 (fun k0 => k0 = kh) (fun _ => False) (fun _ => False)) s s' /\ sasl s' = del_mech m (sasl s)).
+  { destruct Hs' as [Hs'|[n Hs']]; subst s'; [split; [exact E1|exact Esasl1]|]. split; [|exact Esasl1].
+    eapply (eff_seq _ _ _ _ [] pnone); [exact E1|eff_frame|solve_sub|apply pimp_refl|apply pimp_none]. }
+  destruct E2 as [E2 Esasl]. clear Hs' E1 Esasl1. clearbody s1. clear s1.
+  assert (E : eff [Fsasl; Fsq; Fh; FhD] (mkP (fun x => x = (WAuth m, false, negb (sm_enabled s)) \/ x = (WReq, false, true))
+                 (fun k0 => k0 = kh) (fun _ => False) (fun _ => False)) s (h_del k s')).
+  { eapply eff_seq; [exact E2|apply (h_del_eff pnone)|solve_sub|apply pimp_refl|apply pimp_none]. }
+  assert (Esaslt : sasl (h_del k s') = del_mech m (sasl s)) by exact Esasl.
+  set (t := h_del k s') in *.
+  assert (Est : st t = st s) by (apply (ef_nd _ _ _ _ E); reflexivity).
+  assert (Lt : live t) by (unfold live; rewrite Est; exact Lv).
+  pose proof (ef_L _ _ _ _ E Lt) as F.
+  destruct (ap_pp k s A) as [PP1 PP2].
+  assert (HK : forall k', In k' (hk t) -> (is_baseh k' = true \/ k' = kh) /\ k' <> k).
+  { intros k' H. unfold t in H. apply In_hk_h_del in H as [H N]. split; [|exact N].
+    destruct (ef_h _ _ _ _ E2 _ H) as [X|X]; [|right; exact X].
+    destruct (ap_hk k s A k' X) as [Y|Y]; [left; exact Y|contradiction]. }
+  assert (NF : ~ hasF t).
+  { intro X. destruct (HK _ X) as [[Y|Y] N]; [discriminate|]. subst kh. discriminate. }
+  assert (NT : ~ hasT t).
+  { intro X. destruct (HK _ X) as [[Y|Y] N]; [discriminate|]. subst kh. discriminate. }
+  assert (PPt : prepost t).
+  { split; [|rewrite (F Fsme eq_refl); exact PP2]. intros i H.
+    destruct (ef_i _ _ _ _ E _ H) as [X|X]; [auto|destruct X]. }
+  assert (TMt : ~ hasTMF t).
+  { intro X. destruct (ef_t _ _ _ _ E _ X) as [Y|Y]; [apply (ap_tm k s A Y)|destruct Y]. }
+  destruct (ef_sq _ _ _ _ E) as [l [Q Al]]. rewrite Forall_forall in Al.
+  assert (NEW : forall x, In x l -> x = (WAuth m, false, true) \/ is_neg (fst (fst x)) = false).
+  { intros x H. destruct (Al x H) as [[X|X]|X].
+    - left. rewrite X, PP2. reflexivity.
+    - right. rewrite X. reflexivity.
+    - right. apply (gi_S s G _ X). }
+  assert (SEC : f_tls_mandatory s = true -> is_secured s = true).
+  { intro X. rewrite X in Em. destruct (is_secured s); [reflexivity|discriminate]. }
+  assert (Esec : is_secured t = is_secured s) by (apply is_secured_frame; [exact (F Fsec eq_refl)|exact (F Ftlsf eq_refl)|exact (F Ftlsp eq_refl)]).
+  split.
+  - split.
+    + constructor.
+      * pose proof (ef_U _ _ _ _ E Ftlss eq_refl) as X. unfold eq_on in X. rewrite X. apply (gi_T s G).
+      * intros w H. apply (gi_S s G). apply (ef_smq _ _ _ _ E). exact H.
+    + intros _.
+      apply (linv_transfer2 s t k (ap_in k s A) (apre_authh k s A) L (F Fraw eq_refl)
+               Est (F Frp eq_refl) (F Foh eq_refl) (F Fps eq_refl)); try assumption.
+      * intros k' H. destruct (HK k' H) as [[X|X] _]; [left; exact X|right; right; right; subst; exact Kh].
+      * intro X. contradiction.
+      * intro X. contradiction.
+      * intros k2 K2 S2. destruct (HK k2 K2) as [[X|X] N]; [destruct k2; discriminate|]. subst k2.
+        split; [intros k' H; destruct (HK k' H) as [Y _]; exact Y|]. split; [exact PPt|]. split; [exact TMt|].
+        rewrite (F Foh eq_refl), (F Fgf eq_refl), (F Fgs eq_refl), Esaslt.
+        split; [exact (ap_oh k s A)|]. split; [exact (ap_gf k s A)|].
+        intro X. apply mem_del_false. apply (ap_pl k s A X).
+      * intros x H B. destruct (In_app_sendq s t l x Q H) as [X|X]; [apply (li_Q s L x X B)|].
+        destruct (NEW x X) as [Y|Y]; [subst x; discriminate B|exact Y].
+      * intros M _. rewrite (F Fmand eq_refl) in M. rewrite Esec. auto.
+      * intros D x H. rewrite (F Fdis eq_refl) in D. destruct (In_app_sendq s t l x Q H) as [X|X]; [apply (li_D s L D x X)|].
+        destruct (NEW x X) as [Y|Y]; [subst x; discriminate|]. intro Z. rewrite Z in Y. discriminate.
+      * intros x H B. destruct (In_app_sendq s t l x Q H) as [X|X].
+        { rewrite (F Flauth eq_refl), (F Ftyp eq_refl). apply (li_L s L x X B). }
+        destruct (NEW x X) as [Y|Y]; [subst x; discriminate B|]. rewrite B in Y. discriminate.
+      * intros x H B. rewrite (F Fgs eq_refl), (F Fgf eq_refl), (F Fps eq_refl).
+        destruct (In_app_sendq s t l x Q H) as [X|X]; [apply (li_PL s L x X B)|].
+        destruct (NEW x X) as [Y|Y]; [|rewrite B in Y; discriminate]. subst x. cbn in B. inv B.
+        split; [|split; [exact (ap_gf k s A)|rewrite (ap_ps k s A); discriminate]].
+        destruct (g_strong (gh s)) eqn:Gs; [|reflexivity]. rewrite (ap_pl k s A eq_refl) in Hm. discriminate.
+      * intro X. rewrite (F Foh eq_refl) in X. rewrite (F Fsec eq_refl). apply (li_O s L X).
+  - split; [intro X; discriminate X|]. split; [intros _; rewrite (F Fps eq_refl); exact (ap_ps k s A)|].
+    split; [rewrite Est; exact (ap_st k s A)|]. split; [intros _ X; contradiction|].
+    intros _ X. rewrite Est in X. contradiction.
+Qed.
